@@ -163,6 +163,12 @@ def prepare_members(w, rng, trial):
     if rng.random() < 0.6:
         for b in members:
             b.setHeight(common.dyadic(rng, 10, 40, 2))
+    if rng.random() < 0.7:
+        # component INSERTION order differing from size-sorted order, and differing between members (Block.add does not sort)
+        for b in members:
+            comps = list(b.getComponents())
+            rng.shuffle(comps)
+            b.setChildren(comps)
     fluxmode = rng.choice(["zero", "positive", "positive", "mixed"])
     for k, b in enumerate(members + extra):
         b.p.percentBu = rng.choice([0.0, common.dyadic(rng, 0, 30, 3)])
@@ -304,19 +310,30 @@ def trial_collections(ctx, w, trial, oracle_only=False):
                 xs = [vals[id(b)][jj] for b in cands]
                 oracle_mean(ctx, dict(case, nuclide=nucs[j]), ws, W, xs, got[jj], "density")
         else:
-            ncomp = len(sorted(cands[0].getComponents()))
-            for ci in range(ncomp):
-                isCand = {id(b) for b in cands}
-                repc = sorted(rep.getComponents())[ci]
-                vals = [[sorted(b.getComponents())[ci].getNuclideNumberDensities(nucs)[j] for j in subset]
+            isCand = {id(b) for b in cands}
+
+            def matching(b, name):
+                """the member's component that corresponds to the representative's one: matched by NAME, not by position"""
+                hit = [c for c in b.getComponents() if c.name == name]
+                return hit[0] if len(hit) == 1 else None
+
+            if len(rep.getComponents()) != len(cands[0].getComponents()):
+                ctx.fail("avg-component-count", "the representative block has the members' components", case,
+                         observed=[c.name for c in rep.getComponents()])
+            for repc in rep.getComponents():
+                ccase = dict(case, component=repc.name,
+                             insertionOrders=[[c.name for c in b.getComponents()] for b in cands][:3])
+                candc = [matching(b, repc.name) for b in cands]
+                if any(c is None for c in candc):
+                    ctx.count("by-component: members without a uniquely named matching component (skipped)")
+                    continue
+                vals = [[matching(b, repc.name).getNuclideNumberDensities(nucs)[j] for j in subset]
                         if id(b) in isCand else [0.0] * len(subset) for b in order]
                 got = [repc.getNuclideNumberDensities(nucs)[j] for j in subset]
                 blks = "[" + ",".join(blk_line(v, vol, wp, vv) for (v, vol, wp), vv in zip(win, vals)) + "]"
-                ccase = dict(case, component=repc.name)
                 if not oracle_only:
                     ask(f"avg {useP} {len(subset)} {blks}",
                         lambda line, ccase=ccase, got=got: cmp_list(ctx, "component average densities vs AverageBlockCollection", ccase, line, got))
-                candc = [sorted(b.getComponents())[ci] for b in cands]
                 for jj, j in enumerate(subset):
                     xs = [c.getNuclideNumberDensities(nucs)[j] for c in candc]
                     oracle_mean(ctx, dict(ccase, nuclide=nucs[j]), ws, W, xs, got[jj], "component-density")
@@ -327,6 +344,11 @@ def trial_collections(ctx, w, trial, oracle_only=False):
                     if not oracle_only:
                         ask(f"wmean {ratlist(tw)} {ratlist(temps)}",
                             lambda line, ccase=ccase, t=repc.temperatureInC: cmp_list(ctx, "component temperature", ccase, line, [t], 1e-8))
+                    direct = float(sum(a * Fraction(t) for a, t in zip(tw, temps)) / sum(tw))
+                    if not math.isclose(repc.temperatureInC, direct, rel_tol=1e-8, abs_tol=1e-9):
+                        ctx.fail("avg-component-temperature-weighted-mean",
+                                 "the averaged component temperature is the mean over the MATCHING components weighted by member weight x mass",
+                                 ccase, observed=repc.temperatureInC, expected=direct)
                     if any(x < 0 for x in tw):
                         ctx.count("excluded point: component of negative mass (negative weight), convexity not asserted")
                     elif not (min(temps) - 1e-9 <= repc.temperatureInC <= max(temps) + 1e-9):
